@@ -271,14 +271,48 @@ for t in trees:
                 fail("parserfns:expr_fn#equals-reference-value", f"{src!r} -> {got!r}, reference {want!r}",
                      {"expr": src, "got": got, "want": want})
         elif "error" not in got.lower() and "divide by zero" not in got.lower() and "sqrt of negative" not in got.lower():
-            # reference says domain/overflow error: any in-band error text is accepted
-            pass
+            # reference says domain/overflow error: any in-band error text is accepted; what is never a value of an
+            # expression over the real doubles is something that does not read as a real number
+            try:
+                float(got)
+            except ValueError:
+                fail("parserfns:expr_fn#equals-reference-value[not-a-real-number]",
+                     f"{src!r} -> {got!r}: neither a real number nor an in-band error", {"expr": src, "got": got}, "not-real")
     if len(outs) == 2 and want is not None and not close(outs[0][1], outs[1][1]):
         fail("parserfns:expr_fn#independent-of-redundant-parentheses",
              f"{outs[0][0]!r} -> {outs[0][1]!r} but {outs[1][0]!r} -> {outs[1][1]!r}", {"a": outs[0], "b": outs[1]})
     if want is not None:
         distinct.add(("expr", want))
 samples.append({"expr_trees": len(trees), "example": render(trees[-1], False, lambda: " ")})
+
+# powers are taken in double precision (math.pow): outside the reals / beyond the double range they are in-band errors,
+# and a power above 2**53 is the double, not the exact integer
+POW_ERR = ["(-8)^(1/3)", "abs((-4)^0.5)", "(-4) ^ 0.5", "ABS( (-4)^.5 )", "10^400", "(10^400)*0", "2^1024", "0^-1",
+           "((-8)^0.5)+1", "1+(-2.5)^2.5"]
+POW_VAL = [("(3^40) mod 7", "6"), ("3^40 mod 7", "6"), ("( 3 ^ 40 ) MOD 7", "6"), ("(7^30) mod 10", str(int(math.pow(7, 30) % 10))),
+           ("2^10", "1024"), ("2^-1", "0.5"), ("(-2)^3", "-8"), ("2^3^2", "64"), ("0^0", "1"),
+           ("(2^60+1) mod 2", str(int((math.pow(2, 60) + 1) % 2)))]
+# a division by zero is an in-band error whatever follows it at the same precedence level
+for src in ["1/0", "1/0*2", "1/0*0", "1 mod 0 * 3", "1 div 0 div 2", "2*(1/0)", "1/0/2", "5 - 1/0*0", "(1/0)*0"]:
+    got = pf("#expr", src)
+    n_expr += 1
+    if got != "Divide by zero" and 'class="error"' not in got:
+        fail("parserfns:expr_fn#equals-reference-value[not-a-real-number]",
+             f"{src!r} -> {got!r}: a division by zero is reported in-band, never dropped or repeated",
+             {"expr": src, "got": got}, "div0")
+for src in POW_ERR:
+    got = pf("#expr", src)
+    n_expr += 1
+    if 'class="error"' not in got:
+        fail("parserfns:expr_fn#equals-reference-value[power-outside-the-real-doubles]",
+             f"{src!r} -> {got!r}: the power has no real double value (domain or range error), reference: in-band error",
+             {"expr": src, "got": got}, "pow-domain")
+for src, want in POW_VAL:
+    got = pf("#expr", src)
+    n_expr += 1
+    if not close(got, want):
+        fail("parserfns:expr_fn#equals-reference-value[double-precision-power]", f"{src!r} -> {got!r}, reference {want!r}",
+             {"expr": src, "got": got, "want": want}, "pow-value")
 
 # ------------------------------------------------------------------ (2) string functions
 AL = ["a", "b", "/"]
